@@ -3,6 +3,7 @@
 //! `<PROP> <args…> | <canonical implementation result>`.
 mod bcodec;
 mod conn;
+mod e2e02;
 mod hand;
 mod meta;
 mod mi;
@@ -17,6 +18,7 @@ use util::Rng;
 
 fn run_line(prop: &str, args: &[&str]) -> String {
     match prop {
+        "C02" => e2e02::run(args),
         "C03" => meta::run03(args),
         "C04" => meta::run04(args),
         "C05" | "C17" => mi::run(args),
@@ -36,6 +38,7 @@ fn run_line(prop: &str, args: &[&str]) -> String {
 
 fn gen(prop: &str, rng: &mut Rng, n: usize) -> Vec<String> {
     match prop {
+        "C02" => e2e02::gen(rng, n),
         "C03" => meta::gen03(rng, n),
         "C04" => meta::gen04(rng, n),
         "C05" => mi::gen05(rng, n),
@@ -126,6 +129,17 @@ fn main() {
     let mut out = std::io::BufWriter::new(stdout.lock());
     match argv.get(1).map(|s| s.as_str()) {
         // harness child-e2e19 <k> <kinds> <npeers>   (internal: spawned by `C19 e2e`)
+        Some("child-e2e02") => {
+            drop(out);
+            e2e02::child(
+                argv[2].parse().expect("seed"),
+                argv[3].parse().expect("pl"),
+                &argv[4],
+                argv[5].parse().expect("honest"),
+                argv[6].parse().expect("droppers"),
+                argv[7] == "1",
+            );
+        }
         Some("child-e2e19") => {
             drop(out);
             tr19::child_e2e19(argv[2].parse().expect("k"), &argv[3], argv[4].parse().expect("npeers"));
